@@ -349,6 +349,21 @@ class CallMixin:
         if issubclass(live, BaseException):
             msg = args[0] if args else K("")
             return Fn("exception", ci, msg)
+        vw = self.repo.cls("terms.ValueWrapper")
+        if vw in ci.mro and (args or "value" in kwargs):
+            # C04 param/plain-data: a constant wrapper must wrap plain data, never a query-builder object
+            v0 = args[0] if args else kwargs["value"]
+            node_tags = self.tags.sub(self.repo.cls("terms.Node"))
+            may = False
+            if isinstance(v0, Sym):
+                ft = self.feasible_tags(v0.path, v0.tags)
+                may = ft is None or bool(ft & node_tags)
+            elif isinstance(v0, Obj):
+                hh = self.hobj(v0)
+                may = hh.kind == "inst" and (hh.cls is None or hh.cls.short in node_tags)
+            if may:
+                fr = self.frames[-1].func.short if self.frames and self.frames[-1].func else "?"
+                self.note(f"vw-node:{fr}:{self.ident(v0)}")
         o = self.alloc("inst", True, self.fresh_name(ci.name), cls=ci)
         if getattr(live, "__dataclass_fields__", None):
             fields = list(live.__dataclass_fields__.values())
@@ -544,14 +559,26 @@ class CallMixin:
         return self.mk_int(self.parts_len(self.iter_parts(v, ordered=False)))
 
     def shape_len(self, s: S):
+        """length of a shape as a z3 integer term (one non-negative unknown per dynamic atom)"""
         total = z3.IntVal(0)
         for a in s.atoms:
             if isinstance(a, Lit):
                 total = total + len(a.s)
             elif isinstance(a, Dyn) and isinstance(a.v, Sym):
                 total = total + self.smt.int("slen!" + a.v.path, nonneg=True)
+            elif isinstance(a, IteA):
+                total = total + z3.If(a.c, self.shape_len(S(a.a)), self.shape_len(S(a.b)))
+            elif isinstance(a, QuoteA):
+                q = a.q
+                ql = self.shape_len(self.to_shape(q)) if isinstance(q, (S, Sym, K)) and not (
+                    isinstance(q, K) and q.v is None) else self.smt.int("slen!" + repr(q), nonneg=True)
+                total = total + self.shape_len(S(a.inner)) + 2 * ql
+            elif isinstance(a, CallA):
+                total = total + self.smt.int(f"slen!call{a.cid}", nonneg=True)
+            elif isinstance(a, JoinA):
+                total = total + self.smt.int(f"slen!join{a.lid}", nonneg=True)
             else:
-                total = total + self.smt.int("slen!" + repr(a), nonneg=True)
+                total = total + self.smt.int("slen!" + repr(a)[:200], nonneg=True)
         return z3.simplify(total)
 
     def bi_bool(self, args, kwargs):
